@@ -243,6 +243,12 @@ def r_wrapper_order(P, chk):
                 return None
         return vals
     stores = [x for x in pm.walk() if x["k"] == "CompoundAssignOperator" and x["op"] == "|=" and (const_value(x["c"][1]) or 0) & ext["EXT_COMPLETE"]]
+    # ... or a call of a same-unit helper that does nothing but set the bit (under the snippet test checked above)
+    for c in pm.calls():
+        h = pm.unit.funcs.get(c.get("callee") or "")
+        if h is not None and h is not pm and any(x["k"] == "CompoundAssignOperator" and x["op"] == "|=" and
+                                                 (const_value(x["c"][1]) or 0) & ext["EXT_COMPLETE"] for x in h.walk()):
+            stores.append(c)
     ppos = pm.cfg.positions()
     keys = {}
     for K in sorted(lits) + ["\x00some-other-key"]:
@@ -271,8 +277,7 @@ def r_wrapper_order(P, chk):
                           sorted(quiet), sorted(CONTROL_KEYS), sorted(quiet - CONTROL_KEYS), sorted(CONTROL_KEYS - quiet),
                           "" if other_forces else "; an arbitrary other key does not force a complete document"))
     # the final else (any other key) forces complete
-    elses = [x for x in pm.walk() if x["k"] == "CompoundAssignOperator" and x["op"] == "|="
-             and (const_value(x["c"][1]) or 0) & ext["EXT_COMPLETE"]]
+    elses = stores
     chk.obligation(rid, "every other key forces a complete document (%d forcing branches)" % len(elses), len(elses) >= 1)
     # who may read metadata in the body exporters
     roots = []
